@@ -10,6 +10,7 @@ import (
 	"github.com/sirupsen/logrus"
 
 	"hop.computer/hop/common"
+	"hop.computer/hop/pkg/vt"
 )
 
 type sender struct {
@@ -386,6 +387,9 @@ func (s *sender) framesToSend(rto bool, startIndex int) int {
 // owning Reliable's close transition may call it, after rejecting producers.
 func (s *sender) Close() error {
 	if s.closed.CompareAndSwap(false, true) {
+		if vt.On {
+			vt.Yield("sender.close")
+		}
 		s.RetransmitTicker.Stop()
 		close(s.sendQueue)
 		close(s.prioritySendQueue)
